@@ -17,6 +17,7 @@ import (
 	"strings"
 	"sync"
 
+	"golang.org/x/mod/module"
 	"golang.org/x/mod/sumdb"
 	"golang.org/x/mod/sumdb/note"
 	"golang.org/x/mod/sumdb/tlog"
@@ -38,7 +39,14 @@ type Scenario struct {
 	Threads   [][]Lookup // one goroutine per entry
 	GONOSUMDB string
 	Fork      bool // C13: client 1 talks to a second server whose log diverges after Preload
+	// ByThread (with Fork): one equivocating server; which of the two logs answers is decided by the
+	// top-level goroutine the request descends from (goroutine k talks to log k mod 2), not by the client.
+	ByThread bool
 }
+
+// CurrentThread returns the id (1-based, in spawn order) of the top-level goroutine the caller descends
+// from. It is set by the controlled-scheduler worker; nil when free-running.
+var CurrentThread func() int
 
 func mv(i int) (string, string) {
 	return fmt.Sprintf("m%d.example/p%d", i, i), fmt.Sprintf("v1.0.%d", i)
@@ -88,6 +96,7 @@ func ForkScenarios() []Scenario {
 	return []Scenario{
 		{Name: "fork-two-clients", Height: 2, Preload: pre(10, 11), Stored: true, Clients: 2, Fork: true, Threads: [][]Lookup{{L(0, 0, false)}, {L(1, 1, false)}}},
 		{Name: "fork-two-clients-empty-config", Height: 1, Preload: pre(10), Clients: 2, Fork: true, Threads: [][]Lookup{{L(0, 0, false)}, {L(1, 0, false)}}},
+		{Name: "fork-one-client-two-threads", Height: 2, Preload: pre(10, 11, 12, 13), Stored: true, Clients: 1, Fork: true, ByThread: true, Threads: [][]Lookup{{L(0, 0, false)}, {L(0, 1, false), L(0, 10, false)}}},
 		{Name: "same-log-different-sizes", Height: 2, Preload: pre(10, 11, 12), Stored: true, Clients: 2, Threads: [][]Lookup{{L(0, 0, false), L(0, 1, false)}, {L(1, 3, false)}}},
 	}
 }
@@ -131,8 +140,17 @@ type Env struct {
 	Ops       []Op
 	Writes    []ConfigWrite
 	HeadsSeen []int64 // sizes of tree heads carried by lookup responses
+	Served    []ServedHead
+	byThread  bool
 	Security  []string
 	name      string
+}
+
+// ServedHead is the signed tree head carried by one lookup response.
+type ServedHead struct {
+	Client int
+	Path   string
+	Tree   tlog.Tree
 }
 
 type ConfigWrite struct {
@@ -160,6 +178,11 @@ func (v view) ReadRemote(path string) ([]byte, error) {
 	srv := v.e.servers[0]
 	if len(v.e.servers) > 1 {
 		srv = v.e.servers[v.id%len(v.e.servers)]
+		if v.e.byThread && CurrentThread != nil {
+			if t := CurrentThread(); t > 0 {
+				srv = v.e.servers[(t-1)%len(v.e.servers)]
+			}
+		}
 	}
 	req, err := http.NewRequest("GET", "http://sum.example"+path, nil)
 	if err != nil {
@@ -177,6 +200,7 @@ func (v view) ReadRemote(path string) ([]byte, error) {
 				if t, err := tlog.ParseTree([]byte(n.Text)); err == nil {
 					v.e.mu.Lock()
 					v.e.HeadsSeen = append(v.e.HeadsSeen, t.N)
+					v.e.Served = append(v.e.Served, ServedHead{v.id, path, t})
 					v.e.mu.Unlock()
 				}
 			}
@@ -248,7 +272,7 @@ type Res struct {
 // done, point is the scheduling hook for external operations (nil when free-running).
 func Exec(sc Scenario, spawn func(func()), wait func(), point func(string)) (*Env, []Res) {
 	k := world.TheKeys()
-	e := &Env{Point: nil, Config: map[string][]byte{}, Cache: map[string][]byte{}, name: k.Name}
+	e := &Env{Point: nil, Config: map[string][]byte{}, Cache: map[string][]byte{}, name: k.Name, byThread: sc.ByThread}
 	nsrv := 1
 	if sc.Fork {
 		nsrv = 2
@@ -290,7 +314,7 @@ func Exec(sc Scenario, spawn func(func()), wait func(), point func(string)) (*En
 		}
 		e.Config[k.Name+"/latest"] = head
 	}
-	e.Ops, e.HeadsSeen = nil, nil
+	e.Ops, e.HeadsSeen, e.Served = nil, nil, nil
 	e.Point = point
 	clients := make([]*sumdb.Client, sc.Clients)
 	for i := range clients {
@@ -469,6 +493,49 @@ func Check(sc Scenario, e *Env, results []Res) (string, string) {
 		}
 		if anyLookup && final.N != max {
 			return fmt.Sprintf("final stored head has size %d, the largest tree seen has size %d (heads seen %v)", final.N, max, e.HeadsSeen), ""
+		}
+	}
+	if sc.Fork {
+		// one timeline per client: the heads carried by the responses of its successful lookups and the
+		// heads it stored must all be true heads of one and the same log
+		for c := 0; c < sc.Clients; c++ {
+			var ts []tlog.Tree
+			var what []string
+			for _, r := range results {
+				if r.Err != nil || r.Lookup.Client != c || skipped(r.Lookup.Path) {
+					continue
+				}
+				esc, _ := module.EscapePath(r.Lookup.Path)
+				for _, sh := range e.Served {
+					if sh.Client == c && sh.Path == "/lookup/"+esc+"@"+strings.TrimSuffix(r.Lookup.Vers, "/go.mod") {
+						ts = append(ts, sh.Tree)
+						what = append(what, fmt.Sprintf("lookup %s -> size %d", r.Lookup.Path, sh.Tree.N))
+					}
+				}
+			}
+			for _, w := range e.Writes {
+				if w.Client == c && !w.Conflict {
+					if nt, err := open(w.New); err == nil {
+						ts = append(ts, nt)
+						what = append(what, fmt.Sprintf("stored size %d", nt.N))
+					}
+				}
+			}
+			one := len(ts) == 0
+			for i := range e.tservers {
+				all := true
+				for _, t := range ts {
+					if h, err := e.treeHash(i, t.N); err != nil || h != t.Hash {
+						all = false
+					}
+				}
+				if all {
+					one = true
+				}
+			}
+			if !one {
+				return fmt.Sprintf("client %d accepted signed trees that do not lie on one log: %v", c, what), ""
+			}
 		}
 	}
 	if nsec > 0 && len(e.Security) == 0 {
